@@ -40,6 +40,14 @@ def gen_spec(rng):
                 "named": rng.random() < 0.6, "tseed": rng.randrange(1 << 30)}
         if spec["rank"] == 3:
             spec["transforms"] = False
+        r = rng.random()
+        if r < 0.06:
+            # bond dimensions around the limits of small integer types
+            spec["n"] = _pick(rng, [2, 3])
+            spec["chi"] = _pick(rng, [127, 128, 129, 255, 256, 257, 300])
+            spec["d"] = 2
+        elif r < 0.14 and spec["rank"] == 4:
+            spec["transforms"] = "near_identity"
     else:
         spec = {"kind": "ptt", "coupling": _pick(rng, ["z", "x", "y", "zx"]),
                 "steps": rng.randrange(2, 7), "dkmax": _pick(rng, [None, 2]),
